@@ -31,11 +31,23 @@ CompareResult arithmeticCompare(const T& lhs, const T& rhs) {
     return COMPARE_RESULT_DIFFER;  // NaN
 }
 
+template <typename T>
+enable_if_t<is_signed<T>::value, bool> isNegative(T value) {
+  return value < 0;
+}
+
+template <typename T>
+enable_if_t<is_unsigned<T>::value, bool> isNegative(T) {
+  return false;
+}
+
 template <typename T1, typename T2>
 CompareResult arithmeticCompare(
     const T1& lhs, const T2& rhs,
     enable_if_t<is_integral<T1>::value && is_integral<T2>::value &&
                 sizeof(T1) < sizeof(T2)>* = 0) {
+  if (is_unsigned<T2>::value && isNegative(lhs))
+    return COMPARE_RESULT_LESS;  // don't convert a negative value to unsigned
   return arithmeticCompare<T2>(static_cast<T2>(lhs), rhs);
 }
 
@@ -44,6 +56,8 @@ CompareResult arithmeticCompare(
     const T1& lhs, const T2& rhs,
     enable_if_t<is_integral<T1>::value && is_integral<T2>::value &&
                 sizeof(T2) < sizeof(T1)>* = 0) {
+  if (is_unsigned<T1>::value && isNegative(rhs))
+    return COMPARE_RESULT_GREATER;  // don't convert a negative value to unsigned
   return arithmeticCompare<T1>(lhs, static_cast<T1>(rhs));
 }
 
